@@ -224,4 +224,6 @@ func TestLengthOffsetsAndSignedBytes(t *testing.T) {
 	}
 }
 
-func ed25519Verify(pub, msg, sig []byte) bool { return ed25519.Verify(ed25519.PublicKey(pub), msg, sig) }
+func ed25519Verify(pub, msg, sig []byte) bool {
+	return ed25519.Verify(ed25519.PublicKey(pub), msg, sig)
+}
